@@ -518,6 +518,9 @@ class Command:
                 )
                 if condition:
                     self.curarg = curarg
+                if "tag" not in curarg["type"]:
+                    # optional positional argument: the next one goes to the next slot
+                    self.nextargpos = pos + 1
                 if add:
                     self.arguments[curarg["name"]] = avalue
                 break
